@@ -173,6 +173,29 @@ func C0(recvs []Recv) int {
 	return 512
 }
 
+// C0s renders the initial buffer capacity of every call: one number when it is the same for all calls (a
+// fresh buffer per call, as today), otherwise the comma-separated list of what each call started with (an
+// implementation that keeps its buffer between calls starts a call with the capacity the previous one left):
+// the model is run with the same capacities, so that neither choice is taken for a difference.
+func C0s(recvs []Recv) string {
+	first := C0(recvs)
+	parts := make([]string, 0, len(recvs))
+	same, last := true, first
+	for _, r := range recvs {
+		if r.Reads > 0 {
+			last = r.C0
+		}
+		if last != first {
+			same = false
+		}
+		parts = append(parts, strconv.Itoa(last))
+	}
+	if same {
+		return strconv.Itoa(first)
+	}
+	return strings.Join(parts, ",")
+}
+
 // Render is the canonical answer compared with the model's: error classes and texts are not part of it.
 func Render(recvs []Recv, more bool, pos int) string {
 	var sb strings.Builder
@@ -235,7 +258,12 @@ func HexUp(b []byte) string {
 
 // Line renders the protocol line `stream.recv <max> <c0> <hex wire|-> <schedule|->`.
 func Line(max, c0 int, wire []byte, sched []ReadEv) string {
-	return fmt.Sprintf("stream.recv %d %d %s %s", max, c0, HexUp(wire), RenderSched(sched))
+	return LineC(max, strconv.Itoa(c0), wire, sched)
+}
+
+// LineC is Line with the capacities rendered by C0s.
+func LineC(max int, c0s string, wire []byte, sched []ReadEv) string {
+	return fmt.Sprintf("stream.recv %d %s %s %s", max, c0s, HexUp(wire), RenderSched(sched))
 }
 
 // ParseLine is the inverse of Line (a leading "#" — impl-only line — is accepted).
@@ -248,7 +276,7 @@ func ParseLine(l string) (max, c0 int, wire []byte, sched []ReadEv, ok bool) {
 	if max, err = strconv.Atoi(f[1]); err != nil {
 		return
 	}
-	if c0, err = strconv.Atoi(f[2]); err != nil {
+	if c0, err = strconv.Atoi(strings.SplitN(f[2], ",", 2)[0]); err != nil {
 		return
 	}
 	if f[3] != "-" {
